@@ -277,6 +277,34 @@ pub proof fn lemma_next_progress(st: State, html: bool, check: bool, keys: Seq<R
         }
     }
 }
+/// THE ATTRIBUTES OF A TAG as the iterator yields them from state `st` on (duplicate check off), up to the first
+/// error: the iteration of next_spec. Terminates by lemma_next_progress.
+#[verifier::opaque]
+pub open spec fn attr_items(st: State, html: bool, s: Seq<u8>) -> Seq<Attr<Range<usize>>>
+    decreases ahead(st, s.len()) via attr_items_decreases
+{
+    if !state_ok(st, s.len()) || s.len() > usize::MAX { Seq::empty() } else {
+        let step = next_spec(st, html, false, Seq::<Range<usize>>::empty(), s);
+        match step.out {
+            Some(Ok(a)) => seq![a] + attr_items(step.state, html, s),
+            _ => Seq::empty(),
+        }
+    }
+}
+#[via_fn]
+proof fn attr_items_decreases(st: State, html: bool, s: Seq<u8>) {
+    if state_ok(st, s.len()) && s.len() <= usize::MAX {
+        lemma_next_progress(st, html, false, Seq::<Range<usize>>::empty(), s);
+    }
+}
+/// with the duplicate check off the remembered keys play no role
+pub proof fn lemma_next_keys_irrelevant(st: State, html: bool, keys: Seq<Range<usize>>, s: Seq<u8>)
+    ensures ({
+        let a = next_spec(st, html, false, keys, s);
+        let b = next_spec(st, html, false, Seq::<Range<usize>>::empty(), s);
+        a.out == b.out && a.state == b.state && a.keys == keys
+    })
+{}
 /// every remembered key lies inside the tag content
 pub open spec fn keys_in(keys: Seq<Range<usize>>, n: nat) -> bool {
     forall|i: int| 0 <= i < keys.len() ==> (#[trigger] keys[i]).start <= keys[i].end && keys[i].end <= n
@@ -897,6 +925,15 @@ pub open spec fn attr_in(a: Attr<Range<usize>>, n: nat) -> bool {
         Attr::Empty(k) => k.start <= k.end <= n,
     }
 }
+/// key / value bytes of a located attribute (opaque: callers reason with these names, not with the four shapes)
+#[verifier::opaque]
+pub open spec fn attr_value_text(s: Seq<u8>, a: Attr<Range<usize>>) -> Seq<u8> {
+    match a { Attr::DoubleQ(_, v) => key_text(s, v), Attr::SingleQ(_, v) => key_text(s, v), Attr::Unquoted(_, v) => key_text(s, v), Attr::Empty(_) => Seq::<u8>::empty() }
+}
+#[verifier::opaque]
+pub open spec fn attr_key_text(s: Seq<u8>, a: Attr<Range<usize>>) -> Seq<u8> {
+    match a { Attr::DoubleQ(k, _) => key_text(s, k), Attr::SingleQ(k, _) => key_text(s, k), Attr::Unquoted(k, _) => key_text(s, k), Attr::Empty(k) => key_text(s, k) }
+}
 /// the public item for a located attribute: the bytes of its ranges
 pub open spec fn item_of<'a>(s: Seq<u8>, a: Attr<Range<usize>>, at: Attribute<'a>) -> bool {
     match a {
@@ -942,6 +979,16 @@ impl<'a> Attributes<'a> {
             final(self).inv(), final(self).bytes == old(self).bytes,
             // every item moves the iterator on (C03: a loop over the attributes of a tag terminates)
             r is Some ==> final(self).ahead() < old(self).ahead(),
+            // without the duplicate check, successive calls walk through attr_items, stopping at the first error
+            !old(self).state.check_duplicates ==> ({
+                let items = attr_items(old(self).state.state, old(self).state.html, old(self).bytes@);
+                match r {
+                    Some(Ok(at)) => items.len() > 0 && item_of(old(self).bytes@, items[0], at) && attr_in(items[0], old(self).bytes@.len())
+                        && at.key.0@ == attr_key_text(old(self).bytes@, items[0]) && at.value@ == attr_value_text(old(self).bytes@, items[0])
+                        && attr_items(final(self).state.state, final(self).state.html, final(self).bytes@) == items.subrange(1, items.len() as int),
+                    _ => items.len() == 0,
+                }
+            }),
             final(self).state.html == old(self).state.html, final(self).state.check_duplicates == old(self).state.check_duplicates,
             // C11 / C09: the public item is the located attribute of one documented step, key and value being exactly
             // the bytes of its ranges; errors are passed on unchanged
@@ -952,7 +999,17 @@ impl<'a> Attributes<'a> {
                    Some(Ok(a)) => r matches Some(Ok(at)) && item_of(old(self).bytes@, a, at),
                } }),
     {
-        proof { axiom_slice_len(self.bytes); lemma_next_progress(self.state.state, self.state.html, self.state.check_duplicates, self.state.keys@, self.bytes@); }
+        proof {
+            axiom_slice_len(self.bytes);
+            lemma_next_progress(self.state.state, self.state.html, self.state.check_duplicates, self.state.keys@, self.bytes@);
+            if !self.state.check_duplicates {
+                lemma_next_keys_irrelevant(self.state.state, self.state.html, self.state.keys@, self.bytes@);
+                reveal_with_fuel(attr_items, 2); reveal(attr_key_text); reveal(attr_value_text);
+                let items = attr_items(self.state.state, self.state.html, self.bytes@);
+                let step = next_spec(self.state.state, self.state.html, false, Seq::<Range<usize>>::empty(), self.bytes@);
+                if step.out matches Some(Ok(a)) { assert(items.subrange(1, items.len() as int) =~= attr_items(step.state, self.state.html, self.bytes@)); }
+            }
+        }
         match self.state.next(self.bytes) {
             None => None,
             Some(Ok(a)) => Some(Ok(a.map(|range: Range<usize>| -> (x: &'a [u8])
